@@ -21,6 +21,7 @@ import (
 	"testing"
 	"time"
 
+	"github.com/gotid/god/api/chain"
 	"github.com/gotid/god/api/httpx"
 	"github.com/gotid/god/api/router"
 	"github.com/gotid/god/internal/verifc04"
@@ -59,6 +60,7 @@ type verifC04Req struct {
 }
 
 type verifC04Case struct {
+	Chain  bool            `json:"chain"` // the server is configured with api.WithChain(custom chain)
 	Groups []verifC04Group `json:"groups"`
 	Reqs   []verifC04Req   `json:"reqs"`
 }
@@ -108,6 +110,15 @@ func verifC04Hmac(key []byte, content string) string {
 	return base64.StdEncoding.EncodeToString(h.Sum(nil))
 }
 
+// verifC04CustomChain configures the engine through the public option api.WithChain with a user chain of
+// two pass-through middlewares (it replaces the default chain; the auth gates must still be appended).
+func verifC04CustomChain(ng *engine) {
+	pass := func(next http.Handler) http.Handler {
+		return http.HandlerFunc(func(w http.ResponseWriter, r *http.Request) { next.ServeHTTP(w, r) })
+	}
+	WithChain(chain.New(pass, pass))(&Server{ng: ng})
+}
+
 func verifC04Sha(body string) string { return fmt.Sprintf("%x", sha256.Sum256([]byte(body))) }
 
 type verifC04Opt struct {
@@ -136,6 +147,9 @@ func TestVerifDriverC04(t *testing.T) {
 			return map[string]any{"error": err.Error()}
 		}
 		ng, rt := newEngine(Config{Timeout: 60000, MaxBytes: 1 << 20}), router.NewRouter()
+		if c.Chain {
+			verifC04CustomChain(ng)
+		}
 		ranGroup := -1
 		for gi, g := range c.Groups {
 			gi := gi
@@ -240,6 +254,7 @@ type verifC04JwtReq struct {
 }
 
 type verifC04JwtCase struct {
+	Chain   bool                 `json:"chain"`
 	Groups  []verifC04JwtGroup   `json:"groups"`
 	Secrets []string             `json:"secrets"` // universe tabulated by the oracle
 	Tokens  []verifc04.TokenSpec `json:"tokens"`
@@ -259,6 +274,9 @@ func verifC04EngineJwt(raw json.RawMessage) any {
 		texts[i] = verifc04.Mint(ts, wall)
 	}
 	ng, rt := newEngine(Config{Timeout: 60000, MaxBytes: 1 << 20}), router.NewRouter()
+	if c.Chain {
+		verifC04CustomChain(ng)
+	}
 	ranGroup := -1
 	confPanic := make([]bool, len(c.Groups))
 	for gi, g := range c.Groups {
